@@ -59,8 +59,10 @@ type RunCtx struct {
 
 // T appends a human-readable trace line (kept only when KeepTrace).
 func (c *RunCtx) T(format string, a ...any) {
+	l := fmt.Sprintf(format, a...)
+	c.Log.Note("t", l)
 	if c.KeepTrace {
-		c.Trace = append(c.Trace, fmt.Sprintf(format, a...))
+		c.Trace = append(c.Trace, l)
 	}
 }
 
